@@ -188,6 +188,9 @@ fn ddmin_lines(m: &mut Min, r: &Replay, job: usize, path: &str) -> Replay {
 pub fn minimise(r: &Replay, tmpdir: &str, budget_s: f64) -> Replay {
     let mut m = Min { target: r.violation.class.clone(), tmpdir, deadline: real_now() + budget_s, trials: 0 };
     let mut best = r.clone();
+    if best.c14.is_some() {
+        return crate::c14::minimise(r, tmpdir, budget_s);
+    }
     if best.proc.is_some() || best.plan.jobs.is_empty() {
         return crate::procsim::minimise(r, tmpdir, budget_s);
     }
